@@ -24,6 +24,20 @@ import (
 )
 
 func main() {
+	// a program may recover from the documented empty-DST panic and carry on: later calls must still return
+	for i := 0; i < 3; i++ {
+		func() {
+			defer func() { _ = recover() }()
+			switch i {
+			case 0:
+				secp256k1.HashToGroup([]byte("m"), nil)
+			case 1:
+				secp256k1.EncodeToGroup([]byte("m"), []byte{})
+			default:
+				secp256k1.HashToScalar([]byte("m"), nil)
+			}
+		}()
+	}
 	// call sequences with slowly growing DSTs and an oversize one in between: whatever the package keeps between calls
 	// (pooled states, cached digests) must not make a later call fail
 	for _, n := range []int{1, 2, 3, 15, 16, 17, 300, 33, 34, 255, 256, 49, 50} {
@@ -50,18 +64,16 @@ func main() {
 
 
 def plain_main():
-    """builds and runs a program that imports nothing but the package (and fmt); returns (ok, output)"""
-    work = os.path.join(core.VERIF, 'work')
-    os.makedirs(work, exist_ok=True)
-    d = tempfile.mkdtemp(prefix='plainmain_', dir=work)
-    try:
-        open(os.path.join(d, 'go.mod'), 'w').write('module plainmain\n\ngo 1.22\n\nrequire github.com/bytemare/secp256k1 v0.0.0\n\nreplace github.com/bytemare/secp256k1 => %s\n' % core.REPO)
-        open(os.path.join(d, 'go.sum'), 'w').write('')
-        open(os.path.join(d, 'main.go'), 'w').write(MAIN)
-        p = subprocess.run(['go', 'run', '.'], cwd=d, env=core.GOENV, capture_output=True, text=True, timeout=300)
-        return p.returncode == 0, (p.stdout + p.stderr)[-600:]
-    finally:
-        shutil.rmtree(d, ignore_errors=True)
+    """builds and runs a program that imports nothing but the package (and fmt), with the default scheduler settings and on a
+    single P (GOMAXPROCS=1: a one-CPU container); a run that does not finish counts as a failure; returns (ok, output)"""
+    for env in ((), ('GOMAXPROCS=1',)):
+        try:
+            ok, out = run_main(MAIN, env, timeout=120)
+        except subprocess.TimeoutExpired:
+            return False, 'a hashing function does not return (program killed after 120 s%s)' % (' with ' + env[0] if env else '')
+        if not ok:
+            return False, out
+    return True, out
 
 
 RAND_MAIN = '''package main
@@ -164,7 +176,7 @@ func main() {
 PLATFORMS = [[], ['GOARCH=riscv64'], ['GOARCH=ppc64le'], ['GOARCH=arm64', 'GOOS=darwin'], ['GOOS=windows'], ['CGO_ENABLED=0', 'GOFLAGS=-mod=mod -tags=purego']]
 
 
-def run_main(src, env_extra=()):
+def run_main(src, env_extra=(), timeout=300):
     work = os.path.join(core.VERIF, 'work')
     os.makedirs(work, exist_ok=True)
     d = tempfile.mkdtemp(prefix='plainmain_', dir=work)
@@ -172,7 +184,7 @@ def run_main(src, env_extra=()):
         open(os.path.join(d, 'go.mod'), 'w').write('module plainmain\n\ngo 1.22\n\nrequire github.com/bytemare/secp256k1 v0.0.0\n\nreplace github.com/bytemare/secp256k1 => %s\n' % core.REPO)
         open(os.path.join(d, 'go.sum'), 'w').write('')
         open(os.path.join(d, 'main.go'), 'w').write(src)
-        p = subprocess.run(['go', 'run', '.'], cwd=d, env=dict(core.GOENV, **dict(e.split('=', 1) for e in env_extra)), capture_output=True, text=True, timeout=300)
+        p = subprocess.run(['go', 'run', '.'], cwd=d, env=dict(core.GOENV, **dict(e.split('=', 1) for e in env_extra)), capture_output=True, text=True, timeout=timeout)
         return p.returncode == 0, (p.stdout + p.stderr)[-600:]
     finally:
         shutil.rmtree(d, ignore_errors=True)
